@@ -164,6 +164,7 @@ static int rd_advance(MPT_INTERFACE(rawdata) *ptr)
 	/* reuse existing cycle */
 	if ((buf = rd->st._buf)
 	    && act < (long) (buf->_used / sizeof(MPT_STRUCT(rawdata_stage)))) {
+		rd->act = act;
 		return act;
 	}
 	/* add cycle placeholder */
